@@ -72,6 +72,14 @@ def _pd_nan(dtype):
     return lambda vals: pd.Series([float("nan") if v is None else v for v in vals], dtype=dtype)
 
 
+def _pd_arrow_dict(categories):
+    """pandas column of dtype ArrowDtype(dictionary<string>) whose dictionary is `categories` in that order"""
+    def build(vals):
+        arr = _pa_dict(categories)(vals)
+        return pd.Series(arr, dtype=pd.ArrowDtype(arr.type))
+    return build
+
+
 def _pa_dict(categories):
     def build(vals):
         idx = pa.array([None if v is None else categories.index(v) for v in vals], type=pa.int32())
@@ -96,7 +104,8 @@ def catalogue(levels, thorough):
     cat["category(unsorted)"] = ("pandas", "cat", _pd_cat(rot), rot)
     cat["category(ordered)"] = ("pandas", "cat", _pd_cat(rot2, ordered=True), rot2)
     cat["category(unused)"] = ("pandas", "cat", _pd_cat(unused), unused)
-    for t in ["int8", "int16", "int32", "int64", "uint8", "uint16", "uint32", "uint64", "float32", "float64",
+    cat["ArrowDtype(dictionary)"] = ("pandas", "cat", _pd_arrow_dict(rot), rot)
+    for t in ["int8", "int16", "int32", "int64", "uint8", "uint16", "uint32", "uint64", "float16", "float32", "float64",
               "Int64", "Float64"]:
         cat[t] = ("pandas", "num", _pd(t), None)
     if thorough:
@@ -138,6 +147,8 @@ F32_MAX, F32_TINY = 3.4028234663852886e38, 1.401298464324817e-45  # exactly repr
 def extreme_values(name):
     """the ends (and the sign-bit boundary) of the value range of a numeric dtype"""
     if is_float(name):
+        if "16" in name:
+            return [-65504.0, 5.960464477539063e-08, 65504.0]  # exactly representable in float16
         if "32" in name:
             return [-F32_MAX, F32_TINY, F32_MAX]
         return [-1e300, 5e-324, 1e300]
@@ -237,7 +248,11 @@ def as_number(v):
 
 
 def cell_is_number(v):
-    return isinstance(v, (numbers.Real, np.bool_)) and not isinstance(v, str)
+    return isinstance(v, numbers.Real) and not isinstance(v, (str, bool, np.bool_))
+
+
+def cell_is_bool(v):
+    return isinstance(v, (bool, np.bool_))
 
 
 def extract(m, out):
@@ -250,10 +265,16 @@ def extract(m, out):
         if [str(c) for c in obj.columns] != names:
             return "names-disagree", names, None, {"frame_columns": [str(c) for c in obj.columns], "spec_columns": names}
         for c in obj.columns:
-            if not pd.api.types.is_numeric_dtype(obj[c].dtype):  # bool counts as numeric
+            if pd.api.types.is_bool_dtype(obj[c].dtype):
+                # True / False are truth values, not numbers (no clean build ever returns them: indicator columns
+                # are 0/1 integers, boolean data comes back as 0/1 integers as well)
+                return "boolean", names, None, {"column": str(c), "dtype": str(obj[c].dtype)}
+            if not pd.api.types.is_numeric_dtype(obj[c].dtype):
                 cells = list(obj[c])
                 if all(cell_is_number(v) for v in cells):
                     status = "object-numeric"
+                elif all(cell_is_number(v) or cell_is_bool(v) for v in cells):
+                    return "boolean", names, None, {"column": str(c), "dtype": str(obj[c].dtype), "cells": [repr(v) for v in cells[:4]]}
                 else:
                     return "non-numeric", names, None, {"column": str(c), "dtype": str(obj[c].dtype), "cells": [repr(v) for v in cells[:4]]}
         mat = [[as_number(v) for v in row] for row in obj.to_numpy(dtype=object).tolist()]
@@ -262,7 +283,9 @@ def extract(m, out):
         if list(obj.column_names) != names:
             return "names-disagree", names, None, {"frame_columns": list(obj.column_names), "spec_columns": names}
         for f in obj.schema:
-            if not (pa.types.is_integer(f.type) or pa.types.is_floating(f.type) or pa.types.is_boolean(f.type)):
+            if pa.types.is_boolean(f.type):
+                return "boolean", names, None, {"column": f.name, "dtype": str(f.type)}
+            if not (pa.types.is_integer(f.type) or pa.types.is_floating(f.type)):
                 return "non-numeric", names, None, {"column": f.name, "dtype": str(f.type)}
         cols = [obj.column(i).to_pylist() for i in range(obj.num_columns)]
         mat = [[as_number(cols[j][i]) for j in range(len(cols))] for i in range(obj.num_rows)]
@@ -271,10 +294,14 @@ def extract(m, out):
         arr = obj.toarray()
     else:
         arr = np.asarray(obj)
-    if arr.dtype.kind not in "biuf":
+    if arr.dtype.kind == "b":
+        return "boolean", names, None, {"dtype": str(arr.dtype)}
+    if arr.dtype.kind not in "iuf":
         cells = [v for row in arr.tolist() for v in (row if isinstance(row, list) else [row])]
         if arr.dtype.kind == "O" and all(cell_is_number(v) for v in cells):
             status = "object-numeric"
+        elif arr.dtype.kind == "O" and all(cell_is_number(v) or cell_is_bool(v) for v in cells):
+            return "boolean", names, None, {"dtype": str(arr.dtype), "cells": [repr(v) for v in cells if cell_is_bool(v)][:4]}
         else:
             bad = [repr(v) for v in cells if not cell_is_number(v)][:4]
             return "non-numeric", names, None, {"dtype": str(arr.dtype), "cells": bad}
@@ -316,6 +343,11 @@ def drv_dtypes(c, ctx, col):
     mat = c.pick(["pandas", "narwhals"]) if kind == "pandas" else "narwhals"
     out = c.pick(["pandas", "numpy", "sparse"] + (["narwhals"] if mat == "narwhals" else []))
     efr = not c.flag()
+    if "float16" in dname and formula == "C(X)":
+        # pandas cannot build a float16 category index ("float16 indexes are not supported"); C() on a numeric
+        # column is not what the property is about: unspecified
+        col.count("unspecified:C(X)-on-float16")
+        raise Skip()
     vals = c.pick(c.pick(ctx["rows_by_dtype"][dname]))  # choose the multiset, then one of its orderings
     n = len(vals)
     data = build_frame(kind, build(vals), n)
@@ -348,6 +380,9 @@ def drv_dtypes(c, ctx, col):
     if status == "non-numeric":
         violation(key, detail, sig="non-numeric-cells")
         return
+    if status == "boolean":
+        violation(key, detail, sig="boolean-cells")
+        return
     if status == "object-numeric":
         col.count("object-container-numeric-cells")
         col.count("object-container-numeric-cells[%s/%s/%s]" % (dname, mat, out))
@@ -360,7 +395,7 @@ def drv_dtypes(c, ctx, col):
         return
     xlevels = declared if klass == "cat" else (R.sorted_levels(present) if klass == "text" else None)
     want_names, want = reference(formula, klass, xlevels, rows, efr)
-    if (dname.startswith("pa.dictionary") and not ARROW_DICTIONARY_ORDER_DEMANDED and want_names is not None
+    if ("dictionary" in dname and not ARROW_DICTIONARY_ORDER_DEMANDED and want_names is not None
             and names != want_names):
         # The order of an (unordered) arrow dictionary is an encoding detail on which the documentation is silent:
         # accept the text rule (sorted levels that occur) as well, and count it.
@@ -371,7 +406,7 @@ def drv_dtypes(c, ctx, col):
     detail["want_columns"], detail["want"] = want_names, want
     if want_names is not None and names != want_names:
         candidates = [want_names]
-        if dname.startswith("pa.dictionary") and not ARROW_DICTIONARY_ORDER_DEMANDED:
+        if "dictionary" in dname and not ARROW_DICTIONARY_ORDER_DEMANDED:
             candidates.append(reference(formula, "text", R.sorted_levels(present), rows, efr)[0])
         if any(names == [x for x in cand if not names_dunder_level(x)] and names != cand for cand in candidates):
             # every expected column is there except exactly those of a level whose name starts with '__'
@@ -417,6 +452,47 @@ def same_result(a, b):
                                           for r, t in zip(a[2], b[2]))
 
 
+def fitted_spec_on_other_representation(col, formula, out, efr, r1, r2, frames, cat, kw):
+    """The spec FITTED on frame 1 is applied to frame 2, which holds the same text data in another representation
+    (text dtype, category with another declared order / unused categories, arrow string ...).  The levels recorded at
+    fit time (sorted for text, declared order for a categorical dtype) govern: every row of frame 2 must get its 1 in
+    the column of the level it holds.  Kind-changing and numeric pairs belong to C09 / the other carriers: skipped."""
+    from formulaic import model_matrix
+
+    (d1, m1, k1, v1, f1), (d2, m2, k2, v2, f2) = frames
+    if k1 not in ("text", "cat") or k2 not in ("text", "cat") or "dictionary" in d1:
+        col.count("fitted-spec carrier not applicable (kind changes / numeric / arrow dictionary at fit)")
+        raise Skip()
+    col.interesting()
+    key = "reuse :: %s carrier=fitted spec out=%s efr=%s first=%s/%s second=%s/%s" % (formula, out, efr, d1, m1, d2, m2)
+    detail = {"formula": formula, "carrier": "mm1.model_spec.get_model_matrix(frame 2)", "output": out,
+              "ensure_full_rank": efr, "first": {"dtype": d1, "materializer": m1, "X": v1},
+              "second": {"dtype": d2, "materializer": m2, "X": v2}}
+    try:
+        spec = model_matrix(formula, f1, **kw(m1)).model_spec
+        m = spec.get_model_matrix(f2, materializer=m2)
+    except Exception as e:  # noqa: BLE001
+        detail["error"] = "%s: %s" % (type(e).__name__, str(e)[:300])
+        col.violation(key, detail, sig="fitted-spec-on-other-representation:raises:" + type(e).__name__)
+        return
+    status, names, got, info = extract(m, out)
+    declared1 = cat[d1][3]
+    levels = declared1 if k1 == "cat" else R.sorted_levels(v1)
+    rows = [{"X": v2[i], "a": A_VALUES[i], "A": B_VALUES[i]} for i in range(len(v2))]
+    want_names, want = reference(formula, "cat", levels, rows, efr)
+    detail.update({"fit_levels": levels, "got_columns": names, "got": got, "want_columns": want_names, "want": want,
+                   "result_info": info})
+    if status not in ("ok", "object-numeric"):
+        col.violation(key, detail, sig="fitted-spec-on-other-representation:" + status)
+    elif names != want_names:
+        col.violation(key, detail, sig="fitted-spec-on-other-representation:wrong-columns")
+    elif len(got) != len(want) or not all(len(r) == len(w) and all(close(g, x) for g, x in zip(r, w))
+                                          for r, w in zip(got, want)):
+        col.violation(key, detail, sig="fitted-spec-on-other-representation:wrong-values")
+    else:
+        col.count("agree:fitted-spec %s->%s" % (k1, k2))
+
+
 def drv_reuse(c, ctx, col):
     """History dimension: ONE Formula object (or one unfitted ModelSpec built from it) is materialized against frame 1
     and then frame 2, where the column X may change its dtype class; every result must equal the fresh single build
@@ -426,7 +502,7 @@ def drv_reuse(c, ctx, col):
 
     cat = ctx["catalogue"]
     formula = c.pick(FORMULAS)
-    carrier = c.pick(["Formula", "ModelSpec"])
+    carrier = c.pick(["Formula", "ModelSpec", "fitted spec"])
     out = c.pick(ctx["outputs"])
     efr = c.pick(ctx["efr"])
     r1 = c.pick(ctx["routes"])
@@ -443,6 +519,9 @@ def drv_reuse(c, ctx, col):
             k["materializer"] = "narwhals"
         return k
 
+    if carrier == "fitted spec":
+        fitted_spec_on_other_representation(col, formula, out, efr, r1, r2, frames, cat, kw)
+        return
     F = Formula(formula)
     S = ModelSpec(formula=F, output=out, ensure_full_rank=efr) if carrier == "ModelSpec" else None
     reused = []
@@ -475,9 +554,10 @@ def drv_reuse(c, ctx, col):
     col.count("agree:%s->%s" % (frames[0][2], frames[1][2]))
 
 
-ROUTES_QUICK = [("object", "pandas"), ("str", "pandas"), ("category(unsorted)", "pandas"), ("int64", "pandas"),
+ROUTES_QUICK = [("object", "pandas"), ("str", "pandas"), ("category(unsorted)", "pandas"), ("category(unused)", "pandas"),
+                ("int64", "pandas"),
                 ("float64", "pandas"), ("bool", "pandas"), ("pa.string", "narwhals"), ("pa.int64", "narwhals")]
-ROUTES_THOROUGH = ROUTES_QUICK + [("object", "narwhals"), ("category(unused)", "narwhals"), ("string[pyarrow]", "pandas"),
+ROUTES_THOROUGH = ROUTES_QUICK + [("object", "narwhals"), ("category(ordered)", "narwhals"), ("string[pyarrow]", "pandas"),
                                   ("uint8", "pandas"), ("Int64", "pandas"), ("boolean", "narwhals"),
                                   ("pa.dictionary(unsorted)", "narwhals"), ("pa.float64", "narwhals"), ("pa.bool", "narwhals")]
 
@@ -587,7 +667,8 @@ def subchecks(tier, seed):
         ctx.update({"routes": routes, "outputs": ["pandas", "numpy", "sparse"] if thorough_scope else ["pandas", "sparse"],
                     "efr": [True, False] if thorough_scope else [True]})
         subs.append(Sub("formula-reuse", drv_reuse, ctx, shard_depth=5,
-                        bounds={"formulas": FORMULAS, "carriers": ["one Formula object", "one unfitted ModelSpec built from it"],
+                        bounds={"formulas": FORMULAS, "carriers": ["one Formula object", "one unfitted ModelSpec built from it",
+                                                              "the spec fitted on frame 1 (text/categorical pairs only)"],
                                 "routes (dtype of X, materializer)": routes, "histories": "every ordered pair of routes",
                                 "outputs": ctx["outputs"], "ensure_full_rank": ctx["efr"]}))
 
